@@ -10,6 +10,8 @@ from pathlib import Path
 VERIF = Path(__file__).resolve().parent.parent
 pid = sys.argv[1]
 dirs = sorted((VERIF / "seeded").glob(pid + "-*"))
+if len(sys.argv) > 2:      # only the given indices: seed_status.py C09 4 5
+    dirs = [d for d in dirs if d.name.split("-")[-1] in sys.argv[2:]]
 patches = [str(d / "patch.ported.diff") if (d / "patch.ported.diff").exists() else str(d / "patch.diff") for d in dirs]
 out = subprocess.run([sys.executable, str(VERIF / "tools/selftest.py"), pid, *patches], capture_output=True, text=True, cwd=VERIF).stdout
 print(out)
